@@ -42,7 +42,10 @@ CLAUSES = {
     "variable-length strings": "proved (varstr_roundtrip)",
     "fixed-width LE/BE integers": "proved (le_roundtrip, le_decode_encode, be_roundtrip, be_decode_encode, le_domain)",
     "block header codec": "proved (header_roundtrip, header_parse_serialize, header_serialize)",
-    "fixed-layout messages": "model = byte layout transcribed from the protocol documentation; tied to the code by correspondence",
+    "ping/pong": "proved (pingpong_roundtrip)",
+    "parse-only message classes (headers, cfilter, cfheaders, cfcheckpt)": "proved: parse (Spec.encode m) = m (headers_parse_encode, headers_rejects_txcount, cfilter_parse_encode, cfheaders_parse_encode, cfcheckpt_parse_encode); Spec = Buidl.Spec.Wire written from the protocol documentation",
+    "serialise-only message classes (getheaders, getdata, getcfilters/getcfheaders, getcfcheckpt)": "proved: Spec.decode (serialize m) = m (getheaders_decode_serialize, getdata_decode_serialize, getcfilters_decode_serialize, getcfcheckpt_decode_serialize)",
+    "version message, merkleblock parse": "model = byte layout transcribed from the protocol documentation; correspondence-only",
 }
 TRUSTED = ["hash256 is a parameter of every theorem; the driver instantiates it with Buidl.Model.Hash.SHA256 "
            "(checked against hashlib by harness/hash_selftest.py)"]
